@@ -6,27 +6,31 @@ RawLeaves(Ks) == {[par |-> FALSE, cap |-> 0, cb |-> 0, ks |-> <<k>>] : k \in Ks}
 RawPars(Ks, lo, hi, CapCb) ==
     {[par |-> TRUE, cap |-> cc[1], cb |-> cc[2], ks |-> ks] : cc \in CapCb, ks \in UNION {[1..n -> Ks] : n \in lo..hi}}
 
-(* operation types x, y (operations are named op-x, op-y); tags "index", "reindex" (one tag is a proper substring of *)
-(* the other; the replay writes a single tag as ONE STRING in about half of the tasks, which the track syntax allows). *)
-(* Filters that must match nothing: name "a" (a prefix of task names), name "op-x" (an operation's name), tag "Index"  *)
-(* (filters are case-sensitive), tag "x" (a type is not a tag).  tag "index" must not match a task tagged "reindex".   *)
-KA == K("x", <<>>, 1)
-KB == K("x", <<"index">>, 2)
-KC == K("y", <<"reindex", "index">>, 1)
-KD == K("y", <<"reindex">>, 1)
+(* Operation types TX, TY are user-defined types that differ only in "_" vs "-" (a type: filter compares the type as   *)
+(* written); operations are named op-<type>.  Tags "index", "reindex" (one tag is a proper substring of the other; the  *)
+(* replay writes a single tag as ONE STRING in about half of the tasks, which the track syntax allows).                *)
+(* Filters that must match nothing: name "a" (a prefix of task names), name "op-bulk_with_retry" (an operation's name), *)
+(* tag "Index" (filters are case-sensitive), tag "bulk_with_retry" (a type is not a tag).  tag "index" must not match a *)
+(* task tagged "reindex", type TX must not match a task of type TY.                                                     *)
+TX == "bulk_with_retry"
+TY == "bulk-with-retry"
+KA == K(TX, <<>>, 1)
+KB == K(TX, <<"index">>, 2)
+KC == K(TY, <<"reindex", "index">>, 1)
+KD == K(TY, <<"reindex">>, 1)
 Kinds4 == {KA, KB, KC, KD}
 F(k, v) == [k |-> k, v |-> v]
-AlphaQuick == <<F("name", "a1"), F("name", "a2"), F("name", "a"), F("type", "x"), F("tag", "index"), F("tag", "Index")>>
-AlphaThorough == <<F("name", "a1"), F("name", "a2"), F("name", "a"), F("name", "op-x"), F("type", "x"), F("type", "y"),
-                   F("tag", "index"), F("tag", "reindex"), F("tag", "x"), F("tag", "Index")>>
+AlphaQuick == <<F("name", "a1"), F("name", "a2"), F("name", "a"), F("type", TX), F("tag", "index"), F("tag", "Index")>>
+AlphaThorough == <<F("name", "a1"), F("name", "a2"), F("name", "a"), F("name", "op-bulk_with_retry"), F("type", TX), F("type", TY),
+                   F("tag", "index"), F("tag", "reindex"), F("tag", TX), F("tag", "Index")>>
 
 FamQuick ==
     {[E |-> RawLeaves(Kinds4) \cup RawPars(Kinds4, 1, 1, {<<0, 0>>}) \cup RawPars({KA, KB, KD}, 2, 2, {<<0, 0>>})
               \cup RawPars({KB, KC}, 2, 2, {<<1, 1>>}),
       n |-> 2, A |-> AlphaQuick, nf |-> 2]}
 
-Kinds2 == {KA, K("y", <<"reindex", "index">>, 2)}
-AlphaThree == <<F("name", "a1"), F("name", "b2"), F("type", "x"), F("tag", "index"), F("tag", "Index")>>
+Kinds2 == {KA, K(TY, <<"reindex", "index">>, 2)}
+AlphaThree == <<F("name", "a1"), F("name", "b2"), F("type", TX), F("tag", "index"), F("tag", "Index")>>
 FamThorough ==
     {[E |-> RawLeaves(Kinds4) \cup RawPars(Kinds4, 1, 1, {<<0, 0>>, <<3, -1>>}) \cup RawPars({KA, KB, KD}, 2, 2, {<<0, 0>>, <<3, -1>>, <<1, 2>>}),
       n |-> 2, A |-> AlphaThorough, nf |-> 2],
